@@ -6,7 +6,7 @@ import "golang.org/x/tools/go/ssa"
 func init() {
 	register(&propDef{
 		ID: "C17",
-		Explanation: "tables/alphabet: for each built-in alphabet the constructor arguments are read as constants (go/types constant values, through Must* wrappers and package-level variables) and checked against every clause the property states about definitions: letters distinct ASCII (up to case for case-insensitive alphabets); pairing strings equal length, ASCII, involutive, case preserving; every letter of the alphabet, in both cases, is paired with a letter of the alphabet; in four-letter alphabets index(complement(l)) == 3-index(l); the gap letter, when part of the alphabet, has index 0. bijection: NewPairing tests pair[pair[x]] == x for the letters of both definition strings. casefold: in the case-insensitive branch of newAlphabet every string ranged over or indexed to fill the tables derives from strings.ToLower/ToUpper of the definition.",
+		Explanation: "tables/alphabet: for each built-in alphabet the constructor arguments are read as constants (go/types constant values, through Must* wrappers and package-level variables) and checked against every clause the property states about definitions: letters distinct ASCII (up to case for case-insensitive alphabets); pairing strings equal length, ASCII, involutive, case preserving; every letter of the alphabet, in both cases, is paired with a letter of the alphabet; in four-letter alphabets index(complement(l)) == 3-index(l); the gap letter, when part of the alphabet, has index 0. bijection: NewPairing tests pair[pair[x]] == x for the letters of both definition strings. casefold: in the case-insensitive branch of newAlphabet every string ranged over or indexed to fill the tables derives from strings.ToLower/ToUpper of the definition. tablefill: every loop whose counter indexes a fixed-size lookup table (index, pair, ok, complements) covers the whole table.",
 		NotDecided:  "that newAlphabet/NewPairing/NewComplementor build the lookup tables these definitions describe, AllValid positions, constructor rejection of bad definitions (value-level behaviour).",
 		Assumptions: []string{"the constructors interpret (letters, pairing s, pairing c, gap, caseSensitive) positionally as their parameter names say"},
 		Run: func(c *Ctx) {
@@ -18,7 +18,7 @@ func init() {
 	})
 	register(&propDef{
 		ID: "C18",
-		Explanation: "tables/quality: every Encoding constant other than None has a case in the decode switch and in the Encode switch of its own scale (Phred-offset encodings: Encoding.DecodeToQphred and Qphred.Encode; Solexa: Encoding.DecodeToQsolexa and Qsolexa.Encode); per encoding the additive constant of Encode equals the subtractive constant of Decode, no scale conversion is applied in between, and bound+offset == '~' so the offset covers exactly the printable range. The Solexa-scale Encode guard must be evaluated on the signed score (negative printable scores receive the offset), and only Illumina1_5 may clamp low bytes.",
+		Explanation: "tables/quality: every Encoding constant other than None has a case in the decode switch and in the Encode switch of its own scale (Phred-offset encodings: Encoding.DecodeToQphred and Qphred.Encode; Solexa: Encoding.DecodeToQsolexa and Qsolexa.Encode); per encoding the additive constant of Encode equals the subtractive constant of Decode, no scale conversion is applied in between, and bound+offset == '~' so the offset covers exactly the printable range. The Solexa-scale Encode guard must be evaluated on the signed score (negative printable scores receive the offset), and only Illumina1_5 may clamp low bytes. signround: a float converted to the signed Solexa score is rounded symmetrically (+0.5 and -0.5 selected by sign, or math.Round).",
 		NotDecided:  "error probabilities, rounding, the Phred<->Solexa conversion tables, and the byte-level arithmetic inside each case (value-level).",
 		Assumptions: []string{"Encode's guarded `q += K` and Decode's `x - K` are the only offset arithmetic in their cases (otherwise UNDECIDED)"},
 		Run: func(c *Ctx) {
@@ -28,7 +28,7 @@ func init() {
 	})
 	register(&propDef{
 		ID: "C03",
-		Explanation: "guardidx: every constant index (direct, sub-slice, or through a helper summarised as indexing parameter i at parameter j) into a vector produced by bytes|strings.Split*/Fields in packages bed and gff is dominated, on every path, by a length guard that proves the index in range (producer facts + dominating len comparisons; helpers' vector parameters take the minimum bound over their call sites). panicval: from every function that defers a recover-to-error converter (handlePanic), every explicit panic reachable through the call graph carries a value that implements error and is not a runtime.Error, or is conditional on `param == const` and that value is excluded by dominating comparisons at every call site on the way. lineio/eofhang: with the reader at end of input (no bytes, io.EOF) no path whose branches are all decided by that condition returns to the read (the loop would never end). lencheck: every store of a quality score into the FASTQ sequence buffer is dominated by the sequence/quality length comparison (or an index bound), so a longer quality line yields the mismatch error, not an index panic.",
+		Explanation: "guardidx: every constant index (direct, sub-slice, or through a helper summarised as indexing parameter i at parameter j) into a vector produced by bytes|strings.Split*/Fields in packages bed and gff is dominated, on every path, by a length guard that proves the index in range (producer facts + dominating len comparisons; helpers' vector parameters take the minimum bound over their call sites). panicval: from every function that defers a recover-to-error converter (handlePanic), every explicit panic reachable through the call graph carries a value that implements error and is not a runtime.Error, or is conditional on `param == const` and that value is excluded by dominating comparisons at every call site on the way. lineio/eofhang: with the reader at end of input (no bytes, io.EOF) no path whose branches are all decided by that condition returns to the read (the loop would never end). lencheck: every store of a quality score into the FASTQ sequence buffer is dominated by the sequence/quality length comparison (or an index bound), so a longer quality line yields the mismatch error, not an index panic. taintsize: an integer parsed from the input reaches a make() size, a slice bound or an index only after being bounded below and above by dominating comparisons (a negative or huge column would otherwise raise a runtime.Error that the recover handler re-panics).",
 		NotDecided:  "termination and the one-call-per-line bound (GFF metadata recursion), nil dereferences, failed type assertions, (nil, nil) returns, the FASTQ length check; FASTA/FASTQ readers have no converter (their only reachable explicit panic, Encoding.DecodeTo* default, is configuration-guarded).",
 		Assumptions: []string{"runtime index panics other than on split-field vectors are out of scope", "a converter re-panics exactly non-error and runtime.Error values (checked structurally)"},
 		Run: func(c *Ctx) {
@@ -62,7 +62,7 @@ func init() {
 	})
 	register(&propDef{
 		ID: "C01",
-		Explanation: "bytecount: forward dataflow over go/cfg of fasta.(*Writer).Write, fastq.(*Writer).Write and writeHeader (and any other (int, error) method of a type with an io.Writer field): after every emitting call (io.Writer.Write, io.WriteString, fmt.Fprint*, module (int, error) writers) its count is pending until added to the result; a pending count at a success return, a plain assignment overwriting accumulated bytes, or a discarded count is a violation (returns inside `if err != nil` are error exits). lineio/fragments: both readers join ReadLine fragments before classifying a line and never retain bufio's buffer (physical lines > 4096 bytes). tables/markers: the constants the writers emit ('>' / '@' / '+' / \"+\\n\") equal the constants the readers classify on. tables/quality: Qphred.Encode and Encoding.DecodeToQphred agree on the offset of every Phred-offset encoding. prefixstrip: a record prefix that lines are classified on with HasPrefix is removed by length or TrimPrefix, never by a cutset trim (names that begin with the prefix character survive).",
+		Explanation: "bytecount: forward dataflow over go/cfg of fasta.(*Writer).Write, fastq.(*Writer).Write and writeHeader (and any other (int, error) method of a type with an io.Writer field): after every emitting call (io.Writer.Write, io.WriteString, fmt.Fprint*, module (int, error) writers) its count is pending until added to the result; a pending count at a success return, a plain assignment overwriting accumulated bytes, or a discarded count is a violation (returns inside `if err != nil` are error exits). lineio/fragments: both readers join ReadLine fragments before classifying a line and never retain bufio's buffer (physical lines > 4096 bytes). tables/markers: the constants the writers emit ('>' / '@' / '+' / \"+\\n\") equal the constants the readers classify on. tables/quality: Qphred.Encode and Encoding.DecodeToQphred agree on the offset of every Phred-offset encoding. prefixstrip: a record prefix that lines are classified on with HasPrefix is removed by length or TrimPrefix, never by a cutset trim (names that begin with the prefix character survive). lineio/fragments everychunk: every path back to ReadLine passes the isPrefix test. directsink: NewWriter stores the caller's io.Writer itself (no buffering wrapper), so reported counts are bytes emitted.",
 		NotDecided:  "that parsed names, descriptions, letters and scores equal what was written (value-level); header splitting; the four-state FASTQ classifier; empty sequences.",
 		Assumptions: []string{"fmt.Fprint*/io.Writer.Write/io.WriteString report the bytes they wrote", "returns inside `if err != nil` are error exits whose count is not part of the property"},
 		Run: func(c *Ctx) {
@@ -77,7 +77,7 @@ func init() {
 	})
 	register(&propDef{
 		ID: "C02",
-		Explanation: "convpair: in package gff the start/end fields are derived from the Start()/End() methods; every value parsed from text (strconv.* or a same-package parse helper, followed through := locals) that is stored into a start field is the direct result of feat.OneToZero, values stored into end fields are not converted; every fmt.Fprint* argument in a gff.Writer method that reads a start field or calls .Start() is wrapped in feat.ZeroToOne, end reads are not converted — so GFF text is 1-based inclusive and features 0-based half-open on every path. bytecount: as C01, for bed.(*Writer).Write (incl. its deferred newline closure), gff.(*Writer).Write (incl. the deferred closure and the inline-sequence branch), WriteMetaData, WriteComment. bufalias: any view of bufio's internal buffer (ReadSlice/ReadLine/Peek result and everything sliced, trimmed or split from it) is dead before the reader is read again — checked interprocedurally through callee summaries — and never stored. zerocolour: the BED writer's \"0\" colour spelling is selected by a test that includes the alpha component (the reader maps \"0\" to RGBA{} and \"r,g,b\" to alpha 0xff).",
+		Explanation: "convpair: in package gff the start/end fields are derived from the Start()/End() methods; every value parsed from text (strconv.* or a same-package parse helper, followed through := locals) that is stored into a start field is the direct result of feat.OneToZero, values stored into end fields are not converted; every fmt.Fprint* argument in a gff.Writer method that reads a start field or calls .Start() is wrapped in feat.ZeroToOne, end reads are not converted — so GFF text is 1-based inclusive and features 0-based half-open on every path. bytecount: as C01, for bed.(*Writer).Write (incl. its deferred newline closure), gff.(*Writer).Write (incl. the deferred closure and the inline-sequence branch), WriteMetaData, WriteComment. bufalias: any view of bufio's internal buffer (ReadSlice/ReadLine/Peek result and everything sliced, trimmed or split from it) is dead before the reader is read again — checked interprocedurally through callee summaries — and never stored. zerocolour: the BED writer's \"0\" colour spelling is selected by a test that includes the alpha component (the reader maps \"0\" to RGBA{} and \"r,g,b\" to alpha 0xff). directsink: as C01 for the bed/gff writers. noskip: bed.Reader.Read and gff.Reader.Read read another line without a record or error only when the current line is blank or starts with '#'.",
 		NotDecided:  "equality of every field after a round trip, float formatting, attribute splitting, BED column-prefix semantics (reflect-driven format).",
 		Assumptions: []string{"feat.OneToZero/ZeroToOne implement the 1-based/0-based pair (their bodies are value-level)", "fmt.Fprint* report the bytes they wrote"},
 		Run: func(c *Ctx) {
@@ -100,7 +100,7 @@ func init() {
 	}
 	register(&propDef{
 		ID: "C05",
-		Explanation: "fresh/clonedeep: in every Clone() of linear.Seq/QSeq, alignment.Seq/QSeq/Row/QRow and multi.Multi, each slice-typed field of the returned object (found from the struct type, not by name) is assigned a freshly allocated value, and when its elements own storage (slices, or sequences behind an interface) every element stored is itself a fresh copy; interface/func typed fields are shared by design and exempt by type. loopdep: the offset each row receives in Multi.RevComp and Multi.Reverse depends on the loop's row variable — necessary for mirroring rows of unequal extent about the alignment's span. loopdep/span-taken-before-loop: no Start/End/Len of the alignment is evaluated inside the loop that re-offsets the rows (earlier iterations have already moved rows).",
+		Explanation: "fresh/clonedeep: in every Clone() of linear.Seq/QSeq, alignment.Seq/QSeq/Row/QRow and multi.Multi, each slice-typed field of the returned object (found from the struct type, not by name) is assigned a freshly allocated value, and when its elements own storage (slices, or sequences behind an interface) every element stored is itself a fresh copy; interface/func typed fields are shared by design and exempt by type. loopdep: the offset each row receives in Multi.RevComp and Multi.Reverse depends on the loop's row variable — necessary for mirroring rows of unequal extent about the alignment's span. loopdep/span-taken-before-loop: no Start/End/Len of the alignment is evaluated inside the loop that re-offsets the rows (earlier iterations have already moved rows). qtravel: where RevComp/Reverse of linear.QSeq and alignment.QSeq store the letter field of elements they also store the quality field (or swap whole elements). The loop rules follow a helper method called once per row.",
 		NotDecided:  "that RevComp equals reverse-then-complement, involution, that qualities travel with letters, the middle element, strand negation (value-level).",
 		Assumptions: []string{"append(T(nil), x...), make, composite literals, X.Make(..) and Clone()/CloneAnnotation() results are newly allocated; Append/Copy chains stay in the storage of their root"},
 		Run: func(c *Ctx) {
@@ -123,7 +123,7 @@ func init() {
 	})
 	register(&propDef{
 		ID: "C06",
-		Explanation: "fresh/freshdst: in sequtils.Join, Truncate, Stitch and Compose the argument of every SetSlice (on the destination and on the scratch reverser) is classified FRESH (X.Make(..) roots with Append/Copy chains, make, element stores of fresh values) unless the call sits in the then-branch of `dst == src` — so when destination and source differ the result shares no storage with the source and the source is never reversed in place. mustpass: in Compose, a must-dataflow over go/cfg (facts reset at the loop head) shows that every path reaching the append of the scratch reverser's slice has, in the same iteration, installed the current segment (SetSlice) and reversed it (RevComp|Reverse). runningend: in Stitch the test that chooses between extending the current span and opening a new one reads the running end that the extend branch updates with max().",
+		Explanation: "fresh/freshdst: in sequtils.Join, Truncate, Stitch and Compose the argument of every SetSlice (on the destination and on the scratch reverser) is classified FRESH (X.Make(..) roots with Append/Copy chains, make, element stores of fresh values) unless the call sits in the then-branch of `dst == src` — so when destination and source differ the result shares no storage with the source and the source is never reversed in place. mustpass: in Compose, a must-dataflow over go/cfg (facts reset at the loop head) shows that every path reaching the append of the scratch reverser's slice has, in the same iteration, installed the current segment (SetSlice) and reversed it (RevComp|Reverse). runningend: in Stitch the test that chooses between extending the current span and opening a new one reads the running end that the extend branch updates with max(). runningend also requires the updated span to be the object the span list holds (element address or appended pointer, not a local copy). qtravel: as C05 (Compose reverses quality sequences through these methods).",
 		NotDecided:  "positional correctness of slice bounds, clipping arithmetic, Stitch's interval merge, Trim's optimality, error-not-panic for out-of-range arguments (value-level).",
 		Assumptions: []string{"alphabet.Slice.Make allocates; Append/Copy write into their receiver's storage or a grown copy of it"},
 		Run: func(c *Ctx) {
@@ -138,7 +138,7 @@ func init() {
 	})
 	register(&propDef{
 		ID: "C07",
-		Explanation: "fresh/retain: AppendColumns/AppendEach of alignment.Seq, alignment.QSeq, multi.Multi and multi.Set.AppendEach never store a slice-typed caller value into receiver storage — directly, as an append element, by spreading a slice of slices, or by passing it (or a loop-reused scratch buffer) to a method summarised as retaining its parameter (summaries computed for every method of seq/alignment, seq/multi, seq/linear). fresh/clonedeep: as C05 (Clone is deep). fresh/periter: a slice installed in the container inside a loop (append element, element store, SetSlice argument — AppendColumns/AppendEach and Multi.Flush) is allocated in that iteration, not carved with a 2-index slice from a loop-external buffer (pieces would overlap in spare capacity).",
+		Explanation: "fresh/retain: AppendColumns/AppendEach of alignment.Seq, alignment.QSeq, multi.Multi and multi.Set.AppendEach never store a slice-typed caller value into receiver storage — directly, as an append element, by spreading a slice of slices, or by passing it (or a loop-reused scratch buffer) to a method summarised as retaining its parameter (summaries computed for every method of seq/alignment, seq/multi, seq/linear). fresh/clonedeep: as C05 (Clone is deep). fresh/periter: a slice installed in the container inside a loop (append element, element store, SetSlice argument — AppendColumns/AppendEach and Multi.Flush) is allocated in that iteration, not carved with a 2-index slice from a loop-external buffer (pieces would overlap in spare capacity). padfromends: Multi.Flush pads a row by a difference of like coordinates (Start-Start or End-End), never of lengths.",
 		NotDecided:  "row-view = column-view equality, Delete/Flush/Subseq semantics, consensus (value-level).",
 		Assumptions: []string{"append(dst, xs...) copies the elements of xs; it retains xs only when the elements themselves are slices"},
 		Run: func(c *Ctx) {
@@ -200,7 +200,7 @@ func init() {
 	})
 	register(&propDef{
 		ID: "C10",
-		Explanation: "livguard: in kmerindex every base code looked up through the alphabet index table ((*Index).ForEachKmerOf, KmerOf, (*Index).KmerOf or whichever functions index an alphabet.Index) is sign-checked by a dominating comparison before it is converted to the unsigned k-mer word — necessary for 'no invalid letter inside a reported k-mer'. This decides one guard, not the index's correctness. maskguard: kMask is Pow4(k)-1 and a k-mer is rejected exactly when it is > kMask. watermark: on the invalid-letter branch of ForEachKmerOf the value carried out equals the letter's position + 1 (difference of two linear forms in the same loop counter).",
+		Explanation: "livguard: in kmerindex every base code looked up through the alphabet index table ((*Index).ForEachKmerOf, KmerOf, (*Index).KmerOf or whichever functions index an alphabet.Index) is sign-checked by a dominating comparison before it is converted to the unsigned k-mer word — necessary for 'no invalid letter inside a reported k-mer'. This decides one guard, not the index's correctness. maskguard: kMask is Pow4(k)-1 and a k-mer is rejected exactly when it is > kMask. watermark: on the invalid-letter branch of ForEachKmerOf the value carried out equals the letter's position + 1 (difference of two linear forms in the same loop counter). tablefill: the alphabet's index table is initialised over its whole length (the scanner trusts negative entries for every non-letter byte). indexspace: every call site of ForEachKmerOf passes slice indices — not Start()/End() coordinates — for the parameters it uses as subscripts of s.Seq.",
 		NotDecided:  "the `high` watermark arithmetic, prefix-sum/bucket bounds, masks, GC/complement bit tricks, equality of reported positions with true occurrences (all value-level).",
 		Assumptions: []string{"alphabet.Index tables hold -1 exactly for letters outside the alphabet"},
 		Run: func(c *Ctx) {
@@ -218,7 +218,7 @@ func init() {
 	})
 	register(&propDef{
 		ID: "C11",
-		Explanation: "reset: the per-cycle state of Morass is computed as the fields written by Push, write, Finalise, Pull and their package-local callees (pos, len, fast, chunk, files, _err). For each such field, either Clear stores it on every path to its `return nil` (must-pass over the SSA CFG; the comm-clause assignment of a select counts only for its branch), or Finalise stores it on every path before reading it and Push/write never read it. Otherwise a value from the previous cycle survives Clear. gojoin (as C12): Finalise joins the background writers before it reads state they produce, so the in-memory/spilled decision cannot depend on writer progress.",
+		Explanation: "reset: the per-cycle state of Morass is computed as the fields written by Push, write, Finalise, Pull and their package-local callees (pos, len, fast, chunk, files, _err). For each such field, either Clear stores it on every path to its `return nil` (must-pass over the SSA CFG; the comm-clause assignment of a select counts only for its branch), or Finalise stores it on every path before reading it and Push/write never read it. Otherwise a value from the previous cycle survives Clear. gojoin (as C12): Finalise joins the background writers before it reads state they produce, so the in-memory/spilled decision cannot depend on writer progress. pooldrain: Clear takes a buffer back from the fixed-capacity pool in which every cycle parks one.",
 		NotDecided:  "sortedness, multiset equality, Pos/Len arithmetic (value-level).",
 		Assumptions: []string{"the API protocol: Push* Finalise Pull* Clear per cycle"},
 		Run: func(c *Ctx) {
@@ -252,7 +252,7 @@ func init() {
 	})
 	register(&propDef{
 		ID: "C19",
-		Explanation: "closeonce: every close(ch) in package concurrent is classified by its enclosing function: if that function (or a closure ancestor, e.g. the deferred exit function of a worker) is started by a go statement inside a loop, the close must sit in a sync.Once.Do literal or be control-dependent on an atomic decrement reaching zero; a `len(ch) == n` test after a separate send is not accepted. Closers that are not loop-spawned (including a dedicated closer after WaitGroup.Wait) are single-instance and accepted. lockset: every access to the Promise mailbox (field message) happens with the promise's mutex m held on every path (must-hold lockset over the SSA CFG; unexported helpers take the intersection of their call sites' locksets; sync.Cond.Wait keeps the lock). sendafterdone: a worker never sends on the result channel after its wg.Done(), counting deferred functions in the order they run. broadcast: every mailbox put by a settling function is followed on every path by Cond.Broadcast; Cond.Signal is rejected.",
+		Explanation: "closeonce: every close(ch) in package concurrent is classified by its enclosing function: if that function (or a closure ancestor, e.g. the deferred exit function of a worker) is started by a go statement inside a loop, the close must sit in a sync.Once.Do literal or be control-dependent on an atomic decrement reaching zero; a `len(ch) == n` test after a separate send is not accepted. Closers that are not loop-spawned (including a dedicated closer after WaitGroup.Wait) are single-instance and accepted. lockset: every access to the Promise mailbox (field message) happens with the promise's mutex m held on every path (must-hold lockset over the SSA CFG; unexported helpers take the intersection of their call sites' locksets; sync.Cond.Wait keeps the lock). sendafterdone: a worker never sends on the result channel after its wg.Done(), counting deferred functions in the order they run. broadcast: every mailbox put by a settling function is followed on every path by Cond.Broadcast; Cond.Signal is rejected. closebysender: a function-local channel that a goroutine started by the function sends on is never closed by the function itself.",
 		NotDecided:  "exactly one result per operation, Map's partition arithmetic, deadlock freedom in general, that Wait eventually returns (liveness).",
 		Assumptions: []string{"sync.Mutex/Cond/Once/WaitGroup semantics", "a goroutine literal started outside any loop runs once per call of its parent"},
 		Run: func(c *Ctx) {
@@ -282,7 +282,7 @@ func init() {
 	})
 	register(&propDef{
 		ID: "C14",
-		Explanation: "tables/ukkonen: the return expression of filter.MinWordsPerFilterHit is normalised as a polynomial over its parameters (straight-line locals substituted) and must equal n + 1 - k*e - k; every call passes (minimum match length, word size, error bound) in those roles (roles derived from filter.New's field initialisers). emitguard: each of the addHit call sites is reached exactly on the edge where tube.Count >= minKmersPerHit (inclusive; SSA dominating branches with polarity), and every reset of a tube's Count to a constant is preceded on every path by a comparison of Count with minKmersPerHit (or the tube is known empty). A higher or exclusive threshold, or a retirement without the test, is a guaranteed false negative. gridperiod: the recycling tick is re-armed with the same field tubeIndex divides by. runstate: f.tubes is assigned a newly made slice on every path before the k-mer scan.",
+		Explanation: "tables/ukkonen: the return expression of filter.MinWordsPerFilterHit is normalised as a polynomial over its parameters (straight-line locals substituted) and must equal n + 1 - k*e - k; every call passes (minimum match length, word size, error bound) in those roles (roles derived from filter.New's field initialisers). emitguard: each of the addHit call sites is reached exactly on the edge where tube.Count >= minKmersPerHit (inclusive; SSA dominating branches with polarity), and every reset of a tube's Count to a constant is preceded on every path by a comparison of Count with minKmersPerHit (or the tube is known empty). A higher or exclusive threshold, or a retirement without the test, is a guaranteed false negative. gridperiod: the recycling tick is re-armed with the same field tubeIndex divides by. runstate: f.tubes is assigned a newly made slice on every path before the k-mer scan. gojoin (as C12): hits pushed to the sorter cannot be lost to an unjoined background writer.",
 		NotDecided:  "tube geometry, ticker recycling, diagonal arithmetic — i.e. the no-false-negative theorem itself (value-level). This decides two necessary conditions only.",
 		Assumptions: []string{"Rasmussen/Stoye/Myers: U(n,q,e) = n + 1 - q(e+1) q-grams are shared by any e-match of length n"},
 		Run: func(c *Ctx) {
@@ -296,7 +296,7 @@ func init() {
 	})
 	register(&propDef{
 		ID: "C15",
-		Explanation: "emitguard: the only send on the DP kernel's result channel is in alignRecursion and is reached solely over edges on which both extents (Bepos-Bbpos, Aepos-Abpos) are >= minLen and the error estimate is <= maxDiff (SSA dominating branches with polarity, operands identified by field), the hit's Error field is assigned that same tested value on a dominating path, and AlignTraps wires minLen from the aligner's minimum hit length and maxDiff as 1 - minId. runstate: the filter's tube states are re-made on every Filter call before the scan (stale counts of the other strand's pass would be mistaken for matches).",
+		Explanation: "emitguard: the only send on the DP kernel's result channel is in alignRecursion and is reached solely over edges on which both extents (Bepos-Bbpos, Aepos-Abpos) are >= minLen and the error estimate is <= maxDiff (SSA dominating branches with polarity, operands identified by field), the hit's Error field is assigned that same tested value on a dominating path, and AlignTraps wires minLen from the aligner's minimum hit length and maxDiff as 1 - minId. runstate: the filter's tube states are re-made on every Filter call before the scan (stale counts of the other strand's pass would be mistaken for matches). The trapezoid pre-filter in AlignTraps compares the trapezoid height with the word size k only.",
 		NotDecided:  "score <= optimal global score of the hit regions, in-bounds coordinates, recall of planted repeats, self-match suppression (value-level). This decides one clause only.",
 		Assumptions: []string{"the kernel's Hit fields Abpos/Aepos/Bbpos/Bepos are the hit's begin/end positions on the two sequences"},
 		Run: func(c *Ctx) {
